@@ -1084,3 +1084,20 @@ func varargElems(v ssa.Value) []ssa.Value {
 	}
 	return out
 }
+
+// retTerm: term of the i-th result of a return; for named results spilled to
+// an Alloc (functions with defer) the value last stored to it in the same block.
+func retTerm(ret *ssa.Return, i int) string {
+	v := ret.Results[i]
+	if u, ok := v.(*ssa.UnOp); ok && u.Op == token.MUL {
+		if al, ok := u.X.(*ssa.Alloc); ok {
+			b := ret.Block()
+			for k := len(b.Instrs) - 1; k >= 0; k-- {
+				if st, ok := b.Instrs[k].(*ssa.Store); ok && st.Addr == ssa.Value(al) {
+					return Term(st.Val)
+				}
+			}
+		}
+	}
+	return Term(v)
+}
